@@ -45,10 +45,11 @@ func streamSpecAt(name string, n, max int, mixed bool, prefix string) *spec.Spec
 func c17(args []string) {
 	c := chk.New("C17", "exploration", args)
 	c.Build(false)
-	c.Rule("producer/consumer pairs connected by an {os:..} port: n in {1,2,4} (and 12, 24, 40 with the producers exiting last) streamed items with maxConcurrentTasks in 2n..2n+2, payload sizes {0,1,4095,65536,65537,1 MiB} (below and above the pipe buffer), exit order forced both ways (producer or consumer lingers after closing its files), producers with only a streaming output and with an additional regular output, SCIPIPE_BUFSIZE and yield seeds varied; history 'complete run, then run again'; oracle: sha256 the consumer read through the FIFO == sha256 the producer wrote (both logged by the commands), consumer output == reference, at the instant Run returns no FIFO and no regular file at the stream path, consumer audit names the producer under Upstream[stream path], hang classification incl. FIFO-blocked children (wchan), re-run terminates and leaves inode/mtime/bytes of consumer outputs untouched. distinct_nontrivial = distinct (n, max, size, exit order, mixed, config) runs whose byte comparison was made")
+	c.Rule("producer/consumer pairs connected by an {os:..} port: n in {1,2,4} (and 12, 24, 40 with the producers exiting last) streamed items with maxConcurrentTasks in 2n..2n+2, payload sizes {0,1,4095,65536,65537,1 MiB} (below and above the pipe buffer), exit order forced both ways (producer or consumer lingers after closing its files), producers with only a streaming output and with an additional regular output, consumers with an ordinary in-port beside the streamed one, SCIPIPE_BUFSIZE and yield seeds varied; history 'complete run, then run again'; oracle: sha256 the consumer read through the FIFO == sha256 the producer wrote (both logged by the commands), consumer output == reference, at the instant Run returns no FIFO and no regular file at the stream path, consumer audit names the producer under Upstream[stream path], hang classification incl. FIFO-blocked children (wchan), re-run terminates and leaves inode/mtime/bytes of consumer outputs untouched. distinct_nontrivial = distinct (n, max, size, exit order, mixed, config) runs whose byte comparison was made")
 	c.Assume("one consumer per streaming port; maxConcurrentTasks >= 2n (each producer and its consumer can run at the same time)")
 	rng := c.Rand("c17")
 	type job struct {
+		aux          bool // the consumer has a second, ordinary in-port beside the streamed one
 		n, max, size int
 		order        string // none | producer-last | consumer-last
 		mixed        bool
@@ -83,6 +84,13 @@ func c17(args []string) {
 			}
 		}
 	}
+	// the consumer has an ordinary in-port beside the streamed one and exits before its producer (which in-port the
+	// library looks at first is a matter of map order, so the case is repeated)
+	for _, n := range []int{1, 2} {
+		for r := 0; r < c.Pick(5, 12); r++ {
+			jobs = append(jobs, &job{aux: true, n: n, max: 2*n + 1, size: 4095, order: "producer-last", mixed: r%2 == 0, cfg: Cfg{Buf: []int{1, 128}[r%2], Procs: []int{2, 4}[r%2]}})
+		}
+	}
 	for _, n := range []int{1, 2} {
 		for _, mixed := range []bool{true, false} {
 			for r := 0; r < c.Pick(1, 4); r++ {
@@ -99,6 +107,11 @@ func c17(args []string) {
 			prefix = "st/"
 		}
 		s := streamSpecAt(fmt.Sprintf("st%d", i), j.n, j.max, j.mixed, prefix)
+		if j.aux {
+			cons := s.Proc("CONS")
+			cons.Cmd = spec.BuildCmd("CONS", []spec.PortDecl{{Name: "in"}, {Name: "aux"}}, []spec.PortDecl{{Name: "out"}}, nil, nil, nil)
+			s.Conns = append(s.Conns, &spec.Conn{From: "src.out", To: "CONS.aux"})
+		}
 		bh := vproto.Behaviours{"PROD": {"size": fmt.Sprint(j.size)}}
 		switch j.order {
 		case "producer-last":
